@@ -1506,6 +1506,14 @@ impl<'a, Octs: Octets + ?Sized> MessageTsig<'a, Octs> {
                 if section.next().is_some() {
                     return Err(TsigError::Position);
                 }
+                // RFC 8945, section 4.2: CLASS MUST be ANY, TTL MUST be 0.
+                // Both are digested as these constants, so a record that
+                // carries anything else must not be accepted.
+                if record.class() != Class::ANY
+                    || record.ttl().as_secs() != 0
+                {
+                    return Err(TsigError::Invalid);
+                }
                 return Ok(MessageTsig { record, start });
             }
         }
